@@ -3,7 +3,7 @@
    Dtls/FlightProofs.v (handshake message sequence numbers, abstract flight LTS).
    The model is of /repo WITH pending-fixes/C16-replay-window.patch (see Dtls/DtlsModel.v). *)
 From Coq Require Import NArith ZArith List.
-From MV Require Import Dtls.DtlsModel Dtls.DtlsSpec Dtls.DtlsProofs.
+From MV Require Import Dtls.DtlsModel Dtls.DtlsSpec Dtls.DtlsProofs Dtls.FlightModel Dtls.FlightProofs.
 Import ListNotations.
 Local Open Scope N_scope.
 
@@ -53,3 +53,40 @@ Theorem c16_first_of_epoch_once : forall st s,
   ok1 = true /\ fst (chk_replay w1 s) = false.
 Proof. exact first_of_epoch_once. Qed.
 Print Assumptions c16_first_of_epoch_once.
+
+(* ---- handshake message sequence numbers (MSN gate of parseSSLHandshake; model tied to the library
+   only through the live replay schedules, see props/C16.py) *)
+
+(* a replayed handshake message (0 < msn <= lastMsn) changes nothing and asks for a retransmit *)
+Theorem c16_msn_replay_no_effect : forall st m,
+  (0 < h_msn m <= hs_last st)%Z -> hs_rx st m = (HRetransmit, st).
+Proof. exact msn_replay_no_effect. Qed.
+Print Assumptions c16_msn_replay_no_effect.
+
+(* handshake state never regresses: over ANY sequence of messages with msn >= 1 the consumed msns are
+   lastMsn+1, lastMsn+2, ... (each once, in order).  _partial: msn 0 is not stopped by this gate
+   (msn_zero_passes); replays of the peer's first message are left to the hsType/hsState match and to
+   the record replay window (c16_no_double_accept). *)
+Theorem c16_msn_monotone_partial : forall ms st,
+  (forall m, In m ms -> (0 < h_msn m)%Z) ->
+  let '(l, st') := hs_run st ms in
+  l = map (fun i => (hs_last st + 1 + Z.of_nat i)%Z) (seq 0%nat (length l)) /\
+  hs_last st' = (hs_last st + Z.of_nat (length l))%Z /\
+  (hs_count st' = hs_count st + length l)%nat.
+Proof. exact hs_run_consecutive. Qed.
+Print Assumptions c16_msn_monotone_partial.
+
+(* ---- LIVENESS, ABSTRACT flight system only (Dtls/FlightModel.v part (b); not a model of the C
+   code): n alternating flights, timeout-driven retransmission, channel that loses / duplicates /
+   reorders arbitrarily.  If the rounds split into n blocks of <= k rounds and in every block every
+   flight gets through at least once, both peers are done after at most k*n rounds. *)
+Theorem c16_completes_abstract : forall n k blocks,
+  length blocks = n -> Forall (block_fair n) blocks -> Forall (fun b => (length b <= k)%nat) blocks ->
+  both_done n (rounds n 0%nat (concat blocks)) = true /\ (length (concat blocks) <= k * n)%nat.
+Proof. exact flights_complete. Qed.
+Print Assumptions c16_completes_abstract.
+
+(* arrivals never take the abstract handshake backwards, and DONE is stable *)
+Theorem c16_progress_monotone_abstract : forall n s p, (p <= rounds n p s)%nat.
+Proof. exact rounds_mono. Qed.
+Print Assumptions c16_progress_monotone_abstract.
